@@ -35,6 +35,19 @@ def chunk_descs(rng, n, tag):
     return out
 
 
+def multimodal_desc(rng, tag):
+    """ a group of four thin sub-layers 200 ft apart: its three-component mixture fit has several local optima, so the
+    outcome depends on the generator the fit starts from (a shared generator shows) """
+    jit = rng.choice([10, 20, 40])
+    base = rng.choice([1900, 900, 3100])
+    rows = []
+    for i in range(60):
+        for k in range(4):
+            rows.append(['a', -15.0 * (59 - i), base + 200 * k + rng.randint(-jit, jit), k + 1])
+    # one slice, hence one group of four levels
+    return {'family': 'F6thr', 'name': tag, 'rows': rows, 'prms': {'SLICING_PRMS': {'distance_threshold': 0.9}}, 'indomain': True}
+
+
 def run(out, tier, seed):
     rng = random.Random(seed + 13)
     mcs = []
@@ -68,7 +81,13 @@ def run(out, tier, seed):
             pre = [list(range(c0, c0 + 60)) for _ in range(n)]
         else:               # many random points
             pre = [sorted(r2.sample(range(1, 4000), 40)) for _ in range(n)]
-        tjobs.append({'name': f'thr:{k}', 'chunks': chunk_descs(random.Random(f'C13t:{seed}:{k % 10}'), n, f'thr:{k}'), 'nstages': 5, 'preempt': pre})
+        chunks = chunk_descs(random.Random(f'C13t:{seed}:{k % 10}'), n, f'thr:{k}')
+        job = {'name': f'thr:{k}', 'chunks': chunks, 'nstages': 5, 'preempt': pre}
+        if k % 2 == 0:
+            # seed-sensitive data in every thread, and every line of the seeding / mixture functions is a pre-emption point
+            job['chunks'] = [multimodal_desc(random.Random(f'C13mm:{seed}:{k}:{j}'), f'thr:{k}:mm{j}') for j in range(n)]
+            job['hot'] = ['tmp_seed', 'ncomp_from_gmm', 'agglomerative_cluster', 'clusterize'] if k % 4 == 0 else ['tmp_seed']
+        tjobs.append(job)
     tres = fw.pool_map('harness.interleave', 'run_threads', tjobs, chunksize=1)
     prs, inexact = [], 0
     switches = 0
